@@ -305,3 +305,114 @@ Proof.
   split; [apply Pb_hstep_sound; exact H1|]. intro Hp. rewrite Hp in H2. simpl in H2. cbv zeta in *.
   destruct (is_period_last (hp_h x) (p_vote_period p)); apply IH; exact H2.
 Qed.
+
+(* ================================================================ message level *)
+
+(** what is observed of one block of a message-level history: the accept flag of every message, then, after the
+    EndBlocker, the rates, events, the Votes store read by KEY (operator address, tuples) and the Prevotes store *)
+Record mobs := mkMObs {
+  mo_acc : list bool; mo_panic : bool; mo_rates : list rate_entry; mo_events : list (nat * Z);
+  mo_votes : list avote; mo_prevotes : list (nat * Z) }.
+
+Definition mo_outcome (o : mobs) : outcome := if mo_panic o then Panic else Done (mo_rates o) (mo_events o).
+
+Definition del_prevote (v : nat) (l : list (nat * Z)) : list (nat * Z) := filter (fun y => negb (Nat.eqb (fst y) v)) l.
+
+(** The votes cast in the current period, tracked by the SPECIFICATION from the messages and their observed accept
+    flags — never read from the implementation's store.  A vote belongs to the VALIDATOR its [validator] field
+    decodes to, however that field is spelled: an accepted vote message replaces that validator's vote and consumes its
+    prevote; an accepted prevote is recorded with the block height.  [None]: a message was accepted although its
+    validator field stands for nobody. *)
+Fixpoint track (h : Z) (cast : list avote) (pvs : list (nat * Z)) (l : list (omsg * bool))
+  : option (list avote * list (nat * Z)) :=
+  match l with
+  | [] => Some (cast, pvs)
+  | (MVote m, true) :: r =>
+      match decode (vm_validator m) with
+      | Some v => track h (put_vote (mkAVote v (vm_tuples m)) cast) (del_prevote v pvs) r
+      | None => None
+      end
+  | (MPrevote m, true) :: r =>
+      match decode (pm_validator m) with
+      | Some v => track h cast (put_prevote (v, h) pvs) r
+      | None => None
+      end
+  | _ :: r => track h cast pvs r
+  end.
+
+(** The property of one block: the EndBlocker outcome satisfies P w.r.t. exactly the votes the bonded validators
+    cast (by identity) in THIS period through accepted messages; the stores afterwards are as for [P_hstep]. *)
+Definition P_mstep (p : params) (e : henv) (rs : list rate_entry) (cast : list avote) (pvs : list (nat * Z))
+           (x : mstep) (cur : mobs) : Prop :=
+  length (mo_acc cur) = length (mp_msgs x) /\
+  exists cast' pvs', track (mp_h x) cast pvs (combine (mp_msgs x) (mo_acc cur)) = Some (cast', pvs') /\
+    P p (env_state e cast' rs) (mp_h x) (mo_outcome cur) /\
+    (mo_panic cur = false ->
+     if is_period_last (mp_h x) (p_vote_period p)
+     then mo_votes cur = [] /\ mo_prevotes cur = filter (keep_prevote p (mp_h x)) pvs'
+     else mo_votes cur = cast' /\ mo_prevotes cur = pvs').
+
+Fixpoint P_mhist (p : params) (rs : list rate_entry) (cast : list avote) (pvs : list (nat * Z))
+         (l : list (henv * mstep * mobs)) : Prop :=
+  match l with
+  | [] => True
+  | (e, x, cur) :: r =>
+      P_mstep p e rs cast pvs x cur /\
+      (mo_panic cur = false ->
+       match track (mp_h x) cast pvs (combine (mp_msgs x) (mo_acc cur)) with
+       | None => True
+       | Some (cast', pvs') =>
+           if is_period_last (mp_h x) (p_vote_period p)
+           then P_mhist p (mo_rates cur) [] (filter (keep_prevote p (mp_h x)) pvs') r
+           else P_mhist p (mo_rates cur) cast' pvs' r
+       end)
+  end.
+
+Definition Pb_mstep (p : params) (e : henv) (rs : list rate_entry) (cast : list avote) (pvs : list (nat * Z))
+           (x : mstep) (cur : mobs) : bool :=
+  Nat.eqb (length (mo_acc cur)) (length (mp_msgs x)) &&
+  match track (mp_h x) cast pvs (combine (mp_msgs x) (mo_acc cur)) with
+  | None => false
+  | Some (cast', pvs') =>
+      Pb p (env_state e cast' rs) (mp_h x) (mo_outcome cur) &&
+      (mo_panic cur ||
+       if is_period_last (mp_h x) (p_vote_period p)
+       then leqb avote_eqb (mo_votes cur) [] && leqb ev_eqb (mo_prevotes cur) (filter (keep_prevote p (mp_h x)) pvs')
+       else leqb avote_eqb (mo_votes cur) cast' && leqb ev_eqb (mo_prevotes cur) pvs')
+  end.
+
+Fixpoint Pb_mhist (p : params) (rs : list rate_entry) (cast : list avote) (pvs : list (nat * Z))
+         (l : list (henv * mstep * mobs)) : bool :=
+  match l with
+  | [] => true
+  | (e, x, cur) :: r =>
+      Pb_mstep p e rs cast pvs x cur &&
+      (mo_panic cur ||
+       match track (mp_h x) cast pvs (combine (mp_msgs x) (mo_acc cur)) with
+       | None => true
+       | Some (cast', pvs') =>
+           if is_period_last (mp_h x) (p_vote_period p)
+           then Pb_mhist p (mo_rates cur) [] (filter (keep_prevote p (mp_h x)) pvs') r
+           else Pb_mhist p (mo_rates cur) cast' pvs' r
+       end)
+  end.
+
+Lemma Pb_mstep_sound p e rs cast pvs x cur : Pb_mstep p e rs cast pvs x cur = true -> P_mstep p e rs cast pvs x cur.
+Proof.
+  unfold Pb_mstep, P_mstep. intro H. apply andb_true_iff in H as [Hl H]. apply Nat.eqb_eq in Hl.
+  split; [exact Hl|].
+  destruct (track (mp_h x) cast pvs (combine (mp_msgs x) (mo_acc cur))) as [[cast' pvs']|]; [|discriminate].
+  exists cast', pvs'. split; [reflexivity|]. apply andb_true_iff in H as [H1 H2].
+  split; [apply Pb_sound; exact H1|]. intro Hp. rewrite Hp in H2. simpl in H2.
+  destruct (is_period_last (mp_h x) (p_vote_period p)); apply andb_true_iff in H2 as [A B];
+    (split; [apply (leqb_eq avote_eqb avote_eqb_eq); exact A | apply (leqb_eq ev_eqb ev_eqb_eq); exact B]).
+Qed.
+
+Lemma Pb_mhist_sound p : forall l rs cast pvs, Pb_mhist p rs cast pvs l = true -> P_mhist p rs cast pvs l.
+Proof.
+  induction l as [|[[e x] cur] l IH]; intros rs cast pvs H; [exact I|].
+  cbn [Pb_mhist P_mhist] in *. apply andb_true_iff in H as [H1 H2].
+  split; [apply Pb_mstep_sound; exact H1|]. intro Hp. rewrite Hp in H2. simpl in H2.
+  destruct (track (mp_h x) cast pvs (combine (mp_msgs x) (mo_acc cur))) as [[cast' pvs']|]; [|exact I].
+  destruct (is_period_last (mp_h x) (p_vote_period p)); apply IH; exact H2.
+Qed.
